@@ -71,3 +71,27 @@ class Ref:
                 return ns, v
             ns = ns[:-1]
         return None
+
+
+def reach_real(s, root):
+    seen = [root]
+    st = [root]
+    while st:
+        p = st.pop()
+        for kind in ('funcs', 'classes'):
+            for name, v in s.ctx.get(p, {}).get(kind, {}).items():
+                q = p + (name,)
+                if v is not None and q not in seen:
+                    seen.append(q)
+                    st.append(q)
+    return seen
+
+
+def ns_decls(s, ns, name, kind, glob):
+    root = (ns[0],) if glob else ns
+    out = []
+    for p in reach_real(s, root):
+        d = s.ctx.get(p, {}).get(kind, {})
+        if name in d:
+            out.append((p + (name,), d[name]))
+    return out
